@@ -115,6 +115,21 @@ def search(maxlen):
             p = run_seq(seq)
             if p:
                 return n, dict(sequence=list(seq), problem=p)
+    # a producer far ahead of its consumer (dozens of buffered elements), also around a cancelled pending receive, and long
+    # random sequences (length 25-40) biased towards enqueueing
+    long_ones = [["enq2"] * 12, ["enq"] * 20 + ["recv", "run"] * 5, ["recv", "run"] + ["enq2"] * 10 + ["cancel_recv", "run", "recv", "run"],
+                 ["recv"] + ["enq2"] * 9 + ["cancel_recv", "run"], ["enq2"] * 9 + ["finish"] + ["recv", "run"] * 3,
+                 ["enq2"] * 9 + ["finish_err"], ["enq2"] * 10 + ["cancel_q", "recv", "run"]]
+    import random
+    rng = random.Random(int(__import__("os").environ.get("VERIF_SEED", "0") or 0))
+    for _ in range(int(__import__("os").environ.get("C17_RANDOM", "150"))):
+        long_ones.append([rng.choice(("enq", "enq2", "enq2", "enq2", "recv", "run", "cancel_recv", "recv", "run"))
+                          for _ in range(rng.randint(25, 40))] + rng.choice(([], ["finish"], ["finish_err"], ["cancel_q"])))
+    for seq in long_ones:
+        n += 1
+        p = run_seq(tuple(seq))
+        if p:
+            return n, dict(sequence=list(seq), problem=p)
     return n, None
 
 
